@@ -242,8 +242,15 @@ def rule_propagation(ctx, crate, rule="R-TAB-PROPAGATION"):
         x = crate.bodies[n]
         for c in x.calls(TES_SET):
             set_calls.append((x, c, x.slice_args(c, [0])))
+    def via_closure(sl, f, adt):
+        # the receiver comes out of an iterator adaptor whose closure projects the field (`parts.iter_mut().filter_map(|p| match p { Literal(s) => Some(s), .. })`)
+        for a_ in sl.atoms:
+            if a_[0] == "closure" and a_[1] in crate.bodies and crate.bodies[a_[1]].slice([0]).has_field(f, adt):
+                return True
+        return False
     for (adt, v, f) in hs:
-        hit = [(x, c) for x, c, sl in set_calls if sl.has_field(f, adt)]
+        hit = [(x, c) for x, c, sl in set_calls if sl.has_field(f, adt) or via_closure(sl, f, adt)]
+        closure_hits = {id(c) for x, c, sl in set_calls if not sl.has_field(f, adt) and via_closure(sl, f, adt)}
         ok = bool(hit)
         for x, c in hit:
             wsl = x.slice_args(c, [1])
@@ -263,7 +270,7 @@ def rule_propagation(ctx, crate, rule="R-TAB-PROPAGATION"):
                                 mp = True
                 ok = ok and mp
             else:
-                ok = ok and x.in_loop(c.bb) and K.in_variant_region(x, crate, c.bb, adt, {v})
+                ok = ok and x.in_loop(c.bb) and (K.in_variant_region(x, crate, c.bb, adt, {v}) or id(c) in closure_hits)
         # a holder reached inside a loop over a collection (template parts, custom keys) is reached for *every* element: the loop
         # has no exit other than the end of the iteration (an early `break` "once one literal is up to date" leaves the rest stale)
         for x, c in hit:
@@ -282,10 +289,15 @@ def rule_propagation(ctx, crate, rule="R-TAB-PROPAGATION"):
         stores = []
         for n in sorted(reach):
             x = crate.bodies[n]
+            xrefs = x.ref_origins()
             for i, j, s in x.assigns():
                 fs = place_fields(s["lhs"])
                 if fs and fs[-1][0] == adt and fs[-1][2] == f:
                     stores.append((x, i, s))
+                elif not fs and s["lhs"]["p"] == ["*"] and x.locals[s["lhs"]["l"]]["ty"].startswith("&mut") and \
+                        any(tp and (tp[-1] if isinstance(tp, (list, tuple)) else tp) == f for tl, tp in xrefs.get(s["lhs"]["l"], ())) and \
+                        ((x.impl or {}).get("self_head") == adt or x.name.startswith(adt + "::")):
+                    stores.append((x, i, s))        # a store through `&mut self.<f>` (destructured `let Self { tab_width, .. } = self`)
         ok = bool(stores) and all(x.slice_rv(i, s).params() and not x.slice_rv(i, s).consts() and x.must_pass([0], [i]) for x, i, s in stores)
         ctx.check(ok, rule, "width:%s.%s" % (adt.rsplit("::", 1)[-1], f), b.name, K.fn_loc(b),
                   "the new width is stored in %s.%s on every path" % (adt.rsplit("::", 1)[-1], f), "%s.%s is not updated by set_tab_width" % (adt, f), cfg)
@@ -336,7 +348,14 @@ def rule_style_replaced(ctx, crate, rule="R-STYLE-REPLACED"):
         dv = None
         if st:
             for (sb, si, sj, ss) in K.constructions(crate, "style::ProgressStyle", bodies=[st]):
-                dv = const_val(ss["rv"]["ops"][ss["rv"]["fields"].index("tab_width")])
+                op_ = ss["rv"]["ops"][ss["rv"]["fields"].index("tab_width")]
+                dv = const_val(op_)
+                if dv is None and isinstance(op_, dict) and op_.get("k") in ("copy", "move"):
+                    # (named first: `let tab_width = DEFAULT_TAB_WIDTH; Self { .., tab_width }`)
+                    sl_ = st.slice(op_, at=si)
+                    cs_ = [c_ for c_ in sl_.consts() if isinstance(c_, int) and not isinstance(c_, bool)]
+                    if len(cs_) == 1 and not sl_.calls and not sl_.params():
+                        dv = cs_[0]
         p = crate.body("style::Template::from_str")
         pv = None
         if p:
@@ -414,6 +433,9 @@ def rule_expansion(ctx, crate, rule="R-TES-EXPANSION"):
 
 def rule_tabrewriter(ctx, crate, rule="R-TABREWRITER"):
     cfg = crate.config
+    # the rewriter's width field: the `usize` one (a tuple struct today, named fields are as good)
+    tw = (crate.adts.get("style::TabRewriter") or {}).get("variants", [{}])[0].get("fields", [])
+    wnames = [f_["name"] for f_ in tw if f_.get("ty") == "usize"] or ["1"]
     b = K.find_one(ctx, crate, rule, r"style::ProgressStyle::format_state")
     if b:
         ws = [c for c in b.calls() if c.callee.get("trait") == "style::ProgressTracker" and K.meth(c.generic) == "write"]
@@ -423,7 +445,9 @@ def rule_tabrewriter(ctx, crate, rule="R-TABREWRITER"):
             aggs = [a for a in sl.atoms if a[0] == "agg" and a[1] == "style::TabRewriter"]
             ok = bool(aggs)
             for (bb, i, j, s) in K.constructions(crate, "style::TabRewriter", bodies=[b]):
-                wsl = b.slice(s["rv"]["ops"][1], at=i)
+                flds = s["rv"].get("fields") or []
+                widx = flds.index(wnames[0]) if wnames[0] in flds else 1
+                wsl = b.slice(s["rv"]["ops"][widx], at=i)
                 ok = ok and wsl.has_field("tab_width", "style::ProgressStyle") and not wsl.consts()
             ctx.check(ok, rule, "custom-key-writer", b.name, c.loc(), "custom keys write through a TabRewriter carrying the style's tab_width",
                       "custom-key output reaches the line buffer without tab rewriting (or with a fixed width)", cfg)
@@ -435,7 +459,7 @@ def rule_tabrewriter(ctx, crate, rule="R-TABREWRITER"):
         for r in rep:
             ok = ok and is_tab_char(r.args[1]) and 2 in w.slice_args(r, [0]).params()
         for p in rpt:
-            ok = ok and " " in w.slice_args(p, [0]).consts() and w.slice_args(p, [1]).has_field("1")
+            ok = ok and " " in w.slice_args(p, [0]).consts() and any(w.slice_args(p, [1]).has_field(n_) for n_ in wnames)
         inner = [c for c in w.calls(r"std::fmt::Write::write_str") if c.bb in {x.bb for x in w.slice([0]).calls}]
         ok = ok and bool(inner) and all(any(x.bb == r.bb for r in rep for x in w.slice_args(c, [1]).calls) for c in inner)
         ctx.check(ok, rule, "rewriter-replaces-tabs", w.name, K.fn_loc(w), "TabRewriter::write_str forwards s.replace('\\t', \" \".repeat(width))",
